@@ -23,17 +23,26 @@ import (
 func init() { core.RegisterCommand("x2ctx", ctxRunMain) }
 
 type xlog struct {
-	mu  sync.Mutex
-	evs []core.Ev
+	mu     sync.Mutex
+	evs    []core.Ev
+	closed bool // set by flush: what stragglers log afterwards is not part of the trace
 }
 
-func (l *xlog) add(e core.Ev) { l.mu.Lock(); l.evs = append(l.evs, e); l.mu.Unlock() }
+func (l *xlog) add(e core.Ev) {
+	l.mu.Lock()
+	if !l.closed {
+		l.evs = append(l.evs, e)
+	}
+	l.mu.Unlock()
+}
 
 // atomically runs f (which returns the event to append) while holding the log mutex.
 func (l *xlog) atomically(f func() core.Ev) {
 	l.mu.Lock()
 	defer l.mu.Unlock()
-	l.evs = append(l.evs, f())
+	if e := f(); !l.closed {
+		l.evs = append(l.evs, e)
+	}
 }
 
 func (l *xlog) flush(enc *json.Encoder, cfg core.Ev) int {
@@ -43,6 +52,7 @@ func (l *xlog) flush(enc *json.Encoder, cfg core.Ev) int {
 	for _, e := range l.evs {
 		_ = enc.Encode(e)
 	}
+	l.closed = true
 	return len(l.evs) + 1
 }
 
